@@ -25,7 +25,7 @@ def cfg(nb, nu, need, rounds, locked, sqlite, invs, props=()):
 def leg_a(ctx):
     runs = [('lock-rsr', 3, 5, 1, 2, True, False), ('lock-sqlite', 3, 5, 1, 2, True, True), ('nolock-sqlite', 3, 4, 2, 1, False, True)]
     if ctx.thorough:
-        runs += [('lock-rsr-need2', 3, 6, 2, 2, True, False), ('lock-rsr-4b', 4, 5, 1, 1, True, False)]
+        runs += [('lock-rsr-need2', 3, 6, 2, 2, True, False), ('lock-rsr-4b', 4, 3, 1, 1, True, False)]
     for label, nb, nu, need, rounds, locked, sq in runs:
         res = tlc.run('Reserve', cfg(nb, nu, need, rounds, locked, sq, INVS, ['SnapshotClean']), ctx, timeout=3000, label=f'Reserve-{label}')
         ctx.add_tlc(res, f'Reserve exhaustive {label}: builders={nb} outputs={nu} need={need} rounds={rounds} locked={locked} sqlite={sq}')
